@@ -322,9 +322,10 @@ type c21Block struct {
 
 type c21Case struct {
 	N      int        `json:"n"`
-	Hist   []int      `json:"hist"`   // accumulated history labels
-	Before []c21Rep   `json:"before"` // ready-queue slot m-1
-	After  []c21Rep   `json:"after"`  // ready-queue slot m+1
+	Hist   []int      `json:"hist"`           // accumulated history labels
+	HOff   *int       `json:"hoff,omitempty"` // nil: k-th label in ξ[E-1-k] (newest first); else in ξ[(HOff+k) mod E] (0 = oldest slot)
+	Before []c21Rep   `json:"before"`         // ready-queue slot m-1
+	After  []c21Rep   `json:"after"`          // ready-queue slot m+1
 	Blocks []c21Block `json:"blocks"`
 	Key    string     `json:"key"`
 }
@@ -334,7 +335,10 @@ const c21Tau0 = 40
 func c21Initial(c *c21Case) *c21State {
 	s := &c21State{Tau: c21Tau0}
 	for k, l := range c.Hist {
-		i := c21E - 1 - (k % (c21E - 1)) // never slot 0 (which would be shifted out by the block)
+		i := c21E - 1 - (k % (c21E - 1)) // newest first
+		if c.HOff != nil {
+			i = (*c.HOff + k) % c21E // from a chosen slot upwards; 0 = the slot that is shifted out by this block
+		}
 		s.Xi[i] |= 1 << uint(l)
 	}
 	step := 1
@@ -633,6 +637,7 @@ type c21Plan struct {
 	steps    []int
 	maxDeps  int // per report
 	maxHist  int
+	hoffs    []int // history placements: -1 = newest first, k = from slot k upwards
 	histAll  bool
 	sampleAt uint64
 }
@@ -667,17 +672,17 @@ func TestVerif_C21(t *testing.T) {
 	var plans []c21Plan
 	if r.Thorough() {
 		plans = []c21Plan{
-			{n: 1, modes: []int{0, 1, 2, 3}, parts: true, steps: []int{1, 2, c21E + 1}, maxDeps: 9, maxHist: 9},
-			{n: 2, modes: []int{0, 1, 2, 3}, parts: true, steps: []int{1, 2, c21E + 1}, maxDeps: 9, maxHist: 9},
-			{n: 3, modes: []int{0, 1, 2}, parts: false, steps: []int{1, 2}, maxDeps: 9, maxHist: 9},
-			{n: 3, modes: []int{-1}, parts: true, steps: []int{1}, maxDeps: 9, maxHist: 9},
-			{n: 4, modes: []int{-1}, parts: false, steps: []int{1}, maxDeps: 2, maxHist: 1},
+			{n: 1, modes: []int{0, 1, 2, 3}, parts: true, steps: []int{1, 2, c21E + 1}, maxDeps: 9, maxHist: 9, hoffs: []int{-1, 0, 1, 2, 3, 4, 5, 6, 7, 8, 9, 10, 11}},
+			{n: 2, modes: []int{0, 1, 2, 3}, parts: true, steps: []int{1, 2, c21E + 1}, maxDeps: 9, maxHist: 9, hoffs: []int{-1, 0, 1, 2, 3, 4, 5, 6, 7, 8, 9, 10, 11}},
+			{n: 3, modes: []int{0, 1, 2}, parts: false, steps: []int{1, 2}, maxDeps: 9, maxHist: 9, hoffs: []int{-1, 0}},
+			{n: 3, modes: []int{-1}, parts: true, steps: []int{1}, maxDeps: 9, maxHist: 9, hoffs: []int{-1, 0}},
+			{n: 4, modes: []int{-1}, parts: false, steps: []int{1}, maxDeps: 2, maxHist: 1, hoffs: []int{-1}},
 		}
 	} else {
 		plans = []c21Plan{
-			{n: 1, modes: []int{0, 1, 2, 3}, parts: true, steps: []int{1, 2, c21E + 1}, maxDeps: 9, maxHist: 9},
-			{n: 2, modes: []int{0, 1, 2, 3}, parts: true, steps: []int{1, 2, c21E + 1}, maxDeps: 9, maxHist: 9},
-			{n: 3, modes: []int{-1}, parts: false, steps: []int{1}, maxDeps: 9, maxHist: 9},
+			{n: 1, modes: []int{0, 1, 2, 3}, parts: true, steps: []int{1, 2, c21E + 1}, maxDeps: 9, maxHist: 9, hoffs: []int{-1, 0, 1, 2, 3, 4, 5, 6, 7, 8, 9, 10, 11}},
+			{n: 2, modes: []int{0, 1, 2, 3}, parts: true, steps: []int{1, 2, c21E + 1}, maxDeps: 9, maxHist: 9, hoffs: []int{-1, 0, 1, 2, 3, 4, 5, 6, 7, 8, 9, 10, 11}},
+			{n: 3, modes: []int{-1}, parts: false, steps: []int{1}, maxDeps: 9, maxHist: 9, hoffs: []int{-1, 0}},
 		}
 	}
 	idx := uint64(0)
@@ -731,42 +736,51 @@ func TestVerif_C21(t *testing.T) {
 							hist = append(hist, d)
 						}
 					}
-					for _, mode := range pl.modes {
-						for _, step := range pl.steps {
-							qk := "some"
-							if nQ == 0 {
-								qk = "none"
-							} else if nNew == 0 {
-								qk = "all"
-							}
-							gk := "1"
-							if step > 1 {
-								gk = ">1"
-							}
-							ks := "queued=" + qk + ",dup=" + map[bool]string{false: "no", true: "yes"}[dup] + ",gap=" + gk
-							c := c21Case{N: n, Hist: hist, Key: ks}
-							var avail []c21Rep
-							for i := 0; i < n; i++ {
-								md := mode
-								if md < 0 {
-									md = i % 2
+					for _, hoff := range pl.hoffs {
+						if hoff >= 0 && len(hist) == 0 || hoff > 0 && len(hist) > 1 && hoff+len(hist) > c21E {
+							continue // nothing to place / would wrap around (covered by the smaller offsets)
+						}
+						for _, mode := range pl.modes {
+							for _, step := range pl.steps {
+								qk := "some"
+								if nQ == 0 {
+									qk = "none"
+								} else if nNew == 0 {
+									qk = "all"
 								}
-								p, l := c21Split(depMasks[od.Digit[i]], U, md)
-								rep := c21Rep{ID: i, H: part[i], P: p, L: l}
-								switch od.Digit[n+i] {
-								case 0:
-									avail = append(avail, rep)
-								case 1:
-									c.Before = append(c.Before, rep)
-								default:
-									c.After = append(c.After, rep)
+								gk := "1"
+								if step > 1 {
+									gk = ">1"
 								}
-							}
-							c.Blocks = []c21Block{{Step: step, Avail: avail}}
-							r.Space(1)
-							c21Run(r, &c, true)
-							if r.WantSample() && idx%50021 == 77 && hm == 1 {
-								r.Sample(c)
+								ks := "queued=" + qk + ",dup=" + map[bool]string{false: "no", true: "yes"}[dup] + ",gap=" + gk
+								c := c21Case{N: n, Hist: hist, Key: ks}
+								if hoff >= 0 {
+									ho := hoff
+									c.HOff = &ho
+								}
+								var avail []c21Rep
+								for i := 0; i < n; i++ {
+									md := mode
+									if md < 0 {
+										md = i % 2
+									}
+									p, l := c21Split(depMasks[od.Digit[i]], U, md)
+									rep := c21Rep{ID: i, H: part[i], P: p, L: l}
+									switch od.Digit[n+i] {
+									case 0:
+										avail = append(avail, rep)
+									case 1:
+										c.Before = append(c.Before, rep)
+									default:
+										c.After = append(c.After, rep)
+									}
+								}
+								c.Blocks = []c21Block{{Step: step, Avail: avail}}
+								r.Space(1)
+								c21Run(r, &c, true)
+								if r.WantSample() && idx%50021 == 77 && hm == 1 {
+									r.Sample(c)
+								}
 							}
 						}
 					}
@@ -792,14 +806,21 @@ func TestVerif_C21(t *testing.T) {
 		}
 	}
 	depth := vlib.Pick(r, 3, 4)
-	for _, hist := range [][]int{nil, {4}} {
+	zero, one := 0, 1
+	type hinit struct {
+		hist []int
+		off  *int
+	}
+	// {hx} newest, {hx} in the oldest slot (shifted out by the first block), {h0} one slot before the oldest
+	for _, hi := range []hinit{{nil, nil}, {[]int{4}, nil}, {[]int{4}, &zero}, {[]int{0}, &one}} {
+		hist := hi.hist
 		for d := 2; d <= depth; d++ {
 			vlib.Sequences(len(evs), d, func(s []int) {
 				idx++
 				if !r.Mine(idx) {
 					return
 				}
-				c := c21Case{N: 4, Hist: hist, Key: "chain"}
+				c := c21Case{N: 4, Hist: hist, HOff: hi.off, Key: "chain"}
 				id := 0
 				for _, e := range s {
 					b := c21Block{Step: evs[e].step}
